@@ -4,6 +4,10 @@
 
 #include <sstream>
 
+#ifdef CONCEPTCORE_VERIF
+#include "ccl/verifHooks.hpp"
+#endif
+
 namespace ccl::object {
 
 SDSetPtr SDEnumSet::Clone() const {
@@ -31,6 +35,11 @@ const StructuredData& CachedSD::SaveCache(const CacheIndex index, StructuredData
   if (size(cachedElements) >= cacheLimit) {
     cachedElements.clear();
   }
+#ifdef CONCEPTCORE_VERIF
+  if (const auto verifLimit = ccl::verif::GetHooks().cacheLimit; verifLimit != 0 && size(cachedElements) >= verifLimit) {
+    cachedElements.clear();
+  }
+#endif
   cachedElements[index] = std::move(value);
   return cachedElements.at(index);
 }
